@@ -221,6 +221,9 @@ pub fn run_suite(
             Err(p) => p,
         };
         writeln!(f, "{}\t{}", r, canon_resp(&resp)).unwrap();
+        // flush per case: if the process is killed (allocation failure, stack overflow) the trace
+        // shows which request was in flight
+        f.flush().unwrap();
     }
     f.flush().unwrap();
 }
